@@ -67,6 +67,9 @@ namespace cnl {
             auto lefts{0};
             auto rights{0};
             for (;;) {
+#if defined(JOHNMCFARLANE_CNL_VERIF)
+                JOHNMCFARLANE_CNL_VERIF_TICK(1);
+#endif
                 auto const mid{fraction<uint_t>(
                         static_cast<uint_t>(left.numerator + right.numerator),
                         static_cast<uint_t>(left.denominator + right.denominator))};
